@@ -342,6 +342,10 @@ func runC13(w *World) {
 				case "meet":
 					if !serial {
 						w.Meet(op.N[0], op.N[1])
+						if idx != n {
+							// the server cuts a kicked user off one second after the request: act at that very instant
+							simrt.Sleep(time.Second)
+						}
 					}
 					continue
 				case "rename":
